@@ -47,6 +47,10 @@ static const struct item ITEMS[] = {
     {1, 1, 0, 0, 16, "xor eax, eax\nimul rax, rcx, 0x12345\nmovq xmm1, rax\nbzhi ecx, [r13+rcx*4], r10d\njne -0x1000\nret\n"},
     {2, 0, 1, 16, 0, "paddb mm1, [rax]\nsetc al\ncmovne rax, r11\nmulx r8, r9, [rsi]\nmov qword [rax+0x12345], 0x5\nret\n"},
     {1, 0, 1, 0, 3, "nop11\nnop7\nadd qword [rax+rcx*4+0x10], 0x12345678\nxchg eax, eax\nbogus line\nret\n"},
+    /* a known mnemonic with a vector layout it does not have: rejected after a look at its table rows - while other threads look up
+       mnemonics with the same first letter */
+    {2, 1, 1, 0, 0, "adc rax, rcx\nadd xmm0, xmm1\nret\n"},
+    {2, 1, 1, 0, 0, "adcx rax, rcx\nand rax, rcx\npaddq ymm0, ymm1\nret\n"},
     /* a library-managed buffer that has to grow (and may move) twice: text built at start-up; free-running mode only
        (thousands of table accesses: too long for the interleaving model) */
     {2, 1, 1, 0, 0, NULL, 0, 1},
